@@ -59,7 +59,7 @@ pub proof fn lemma_chain_n_facts(c: CState, n: nat)
 }
 
 /// after an accepted add_version, every old position moves one step away from the latest
-proof fn lemma_back_shift(c: CState, v: Uuid, p: Uuid, seg: Seq<u8>, n: nat, k: nat)
+pub proof fn lemma_back_shift(c: CState, v: Uuid, p: Uuid, seg: Seq<u8>, n: nat, k: nat)
     requires
         chain_n(c, n), n >= 1, p == c.latest, k <= n,
         !c.versions.dom().contains(v),
@@ -200,7 +200,7 @@ pub proof fn lemma_add_version_chain_n(c: CState, v: Uuid, p: Uuid, seg: Seq<u8>
 }
 
 /// a change that leaves versions / children / latest alone leaves every position alone
-proof fn lemma_back_same(c: CState, d: CState, k: nat)
+pub proof fn lemma_back_same(c: CState, d: CState, k: nat)
     requires d.versions == c.versions, d.latest == c.latest,
     ensures back(d, k) == back(c, k),
     decreases k,
@@ -208,6 +208,39 @@ proof fn lemma_back_same(c: CState, d: CState, k: nat)
     if k > 0 {
         lemma_back_same(c, d, (k - 1) as nat);
     }
+}
+
+/// the same with the chain length made explicit
+pub proof fn lemma_set_snapshot_chain_n(c: CState, v: Uuid, data: Seq<u8>, t: DateTime<Utc>, n: nat)
+    requires
+        chain_n(c, n), v != nil_id(),
+        exists|k: nat| k < 5 && #[trigger] back(c, k) == v && (forall|j: nat| j < k ==> #[trigger] stored(c, back(c, j))),
+    ensures
+        chain_n(set_snapshot_spec(c, new_snap(v, t), data), n),
+{
+    let kv = choose|k: nat| k < 5 && #[trigger] back(c, k) == v && (forall|j: nat| j < k ==> #[trigger] stored(c, back(c, j)));
+    assert(kv <= n) by {
+        if kv > n {
+            assert(stored(c, back(c, n)));
+        }
+    }
+    let d = set_snapshot_spec(c, new_snap(v, t), data);
+    assert forall|k: nat| back(d, k) == back(c, k) by { lemma_back_same(c, d, k); }
+    assert forall|k: nat| k < n implies #[trigger] stored(d, back(d, k)) && back(d, k) != nil_id()
+        && d.versions[back(d, k)].version_id == back(d, k) by {
+        assert(stored(c, back(c, k)));
+    }
+    assert forall|u: Uuid| #[trigger] stored(d, u) implies exists|k: nat| k < n && back(d, k) == u by {
+        assert(stored(c, u));
+        let k = choose|k: nat| k < n && back(c, k) == u;
+        assert(back(d, k) == u);
+    }
+    assert forall|u: Uuid| #[trigger] stored(d, u) implies
+        d.children.dom().contains(d.versions[u].parent_version_id)
+        && d.children[d.versions[u].parent_version_id] == u by {
+        assert(stored(c, u));
+    }
+    assert(kv <= n && back(d, kv) == d.snapshot->Some_0.version_id);
 }
 
 pub proof fn lemma_set_snapshot_preserves_wf(c: CState, v: Uuid, data: Seq<u8>)
